@@ -95,14 +95,22 @@ VARIANTS = [
                {"file": LLSD, "old": "    elif isinstance(something, datetime.datetime):\n",
                 "new": "    elif isinstance(something, datetime.date):\n        seconds_since_epoch = calendar.timegm(something.timetuple())\n"
                        "        return b'd' + struct.pack('<d', seconds_since_epoch)\n    elif isinstance(something, datetime.datetime):\n"}]},
-    {"name": "R2 uri branch moved first but prefix still counts characters", "expect": "C12.R2",
-     "edits": [{"file": LLSD, "old": URI_BRANCH, "new": ""},
-               {"file": LLSD, "old": STR_BRANCH_HEAD, "new": URI_BRANCH + STR_BRANCH_HEAD}]},
-    {"name": "P2 uri branch moved first and prefix counts the encoded bytes", "expect": "silent",
-     "edits": [{"file": LLSD, "old": URI_BRANCH, "new": ""},
-               {"file": LLSD, "old": STR_BRANCH_HEAD,
-                "new": "    elif isinstance(something, uri):\n        encoded = something.encode(\"utf8\")\n"
-                       "        return b'l' + struct.pack('!i', len(encoded)) + encoded\n" + STR_BRANCH_HEAD}]},
+    {"name": "R2 uri branch after the string branch again (D23 reverted)", "expect": "C12.R2",
+     "edits": [{"file": LLSD,
+                "old": "    elif isinstance(something, uri):\n        # Has to come before the string case, `uri` is a `str` subclass\n"
+                       "        something = something.encode(\"utf8\")\n        return b'l' + struct.pack('!i', len(something)) + something\n",
+                "new": ""},
+               {"file": LLSD,
+                "old": "    elif isinstance(something, datetime.datetime):\n",
+                "new": "    elif isinstance(something, uri):\n        something = something.encode(\"utf8\")\n"
+                       "        return b'l' + struct.pack('!i', len(something)) + something\n"
+                       "    elif isinstance(something, datetime.datetime):\n"}]},
+    {"name": "R2 uri prefix counts characters", "file": LLSD, "expect": "C12.R2",
+     "old": "        something = something.encode(\"utf8\")\n        return b'l' + struct.pack('!i', len(something)) + something\n",
+     "new": "        return b'l' + struct.pack('!i', len(something)) + something.encode(\"utf8\")\n"},
+    {"name": "P2 uri branch encodes into a fresh local", "file": LLSD, "expect": "silent",
+     "old": "        something = something.encode(\"utf8\")\n        return b'l' + struct.pack('!i', len(something)) + something\n",
+     "new": "        encoded = something.encode(\"utf8\")\n        return b'l' + struct.pack('!i', len(encoded)) + encoded\n"},
     {"name": "P2 rename the formatter's parameter", "expect": "silent",
      "edits": [{"file": LLSD, "old": "something", "new": "value", "all": True}]},
     {"name": "P2 string predicate spelled as isinstance", "file": LLSD, "expect": "silent",
